@@ -110,23 +110,26 @@ CHECKS = {
             ENG_NOTE, ENG_TECH_M, '5, 7-C10'),
     'C11': ('engine', 'model_checking',
             'Stop with ERROR / CANCELLED / SUCCESS at a random step (some while PAUSED), results in flight delivered afterwards; TLC judges '
-            'StopAck, NoNewTasksAfterStop, FinishedFrozen, TreeCancelled on every step.' + ENG_MODEL + ' Budgets: two stops (each requested state) at any two points, and pause + stop at any two points, of every catalogue shape.',
+            'StopAck, NoNewTasksAfterStop, WaitingStaysAfterStop (a join WAITING at the stop is not woken by its refresh job afterwards), FinishedFrozen, TreeCancelled on every step; fixed histories: stop around the pause command, stop between the completion of a join\'s last inbound task and its refresh job.' + ENG_MODEL + ' Budgets: two stops (each requested state) at any two points, and pause + stop at any two points, of every catalogue shape.',
             ENG_NOTE, ENG_TECH_M, '5, 7-C11'),
     'C08': ('engine', 'model_checking',
-            'Programs whose tasks carry retry, wait-before, wait-after, timeout (literal or expression) and fail-on policies, per-attempt '
+            'Programs whose tasks carry retry (with and without continue-on / break-on), wait-before, wait-after, timeout (literal or expression) and fail-on policies, per-attempt '
             'outcomes from the oracle, under a virtual clock (one third of the runs lets timers fire ahead of pending results); TLC judges '
-            'AttemptBound, StopAtFirstSuccess, FinalIffLast, DelayRespected, WaitBeforeRespected, WaitAfterRespected, TimeoutJudged, '
+            'AttemptBound, StopAtFirstSuccess, RetryStopsWhenTold / RetryExhausted (continue-on / break-on), FinalIffLast, DelayRespected, WaitBeforeRespected, WaitAfterRespected, TimeoutJudged, '
             'FailOnApplied over whole recorded runs (creation and completion times of every action execution).' + ENG_MODEL + ' Budget: the policy catalogue (retry count 2 on plain and join tasks, wait-before x timeout, wait-after, wait-after + retry, timeout + retry) under both schedulers, all orders of timer jobs and results.',
             ENG_NOTE, ENG_TECH_M, '0, 5, 7-C08'),
     'C12': ('engine', 'model_checking',
             'Programs run to rest, then an ERROR task is rerun (reset on/off), skipped or rerun twice with a new outcome and run to rest '
             'again; TLC judges RerunRestores (task, workflow, enclosing workflows and parent tasks RUNNING), RerunReexecutes, '
-            'PartialRerunOnlyFailed, SkipApplied and NoHang after the rerun.',
-            ENG_NOTE, ENG_TECH, '5, 7-C12'),
+            'PartialRerunOnlyFailed, SkipApplied, ItemsTaskCompletes and NoHang after the rerun; the final outcome of every eligible run is compared with what WfSemantics.tla prescribes (as if the task had produced its new result the first time). '
+            'Histories: rerun / skip at rest, twice, followed by pause / resume, inside all item sub-workflows at once, and - triggered by the situation - of a task inside a failed sub-workflow while the parent workflow is still RUNNING.' + ENG_MODEL +
+            ' Budgets: one rerun (reset on / off) or skip of any ERROR task at any point of every failing catalogue shape under both schedulers; two such commands, and rerun + pause + resume, on the small shapes (RerunAckM, SkipAckM, NoHangM, LegalWfM ...). '
+            'Probes reproduce KF-C12-1/2 and KF-C12-9 on the real engine; a simulated behaviour exposed KF-C12-11 (stale completion check after a rerun).',
+            ENG_NOTE, ENG_TECH_M + ' + batch evaluation of the language semantics WfSemantics.tla as outcome oracle', '0.3, 0.4c, 5, 7-C12'),
     'C20': ('engine', 'model_checking',
             'Runs in which a subset of actions goes silent (request never served, no heartbeat), another subset is slow but alive '
             '(heartbeats sent), the virtual clock advances by check intervals with a real handle_expired_actions pass after each, genuine '
-            'results are released late, and a with-items accounting job is lost (stuck task recovered by the real integrity check); TLC '
+            'results are released late, a with-items accounting job is lost (stuck task recovered by the real integrity check), and in a quarter of the runs a checker batch size is configured with expired actions that belong to no task already in the table; a vacuity gate fails the check if no expiry / late result / lost job / orphan batch was observed; TLC '
             'judges ExpiredFailed, NeverExpireFresh, NoStuckTaskAtRest, ResultOnce/FinishedFrozen (late genuine result inert) and NoHang.',
             ENG_NOTE, ENG_TECH, '5, 7-C20'),
     'C15': ('tenancy', 'model_checking',
@@ -151,15 +154,15 @@ CHECKS = {
     'C14': ('dsl', 'exploration',
             'DslValidation.tla: the validation pipeline as a state machine whose only terminal states are Accepted and Rejected(definition '
             'error), over an input space of base documents (covering the DSL features) with up to two structure-aware mutations (node x '
-            'kind); TLC enumerates the single-mutation space, the harness concretises every descriptor (and sampled doubles) to YAML, submits '
-            'it to the real parser entry points, re-instantiates accepted definitions from their stored dict and cuts workbook members out '
-            'with the real slicing code; TLC judges each recorded outcome (Total, InTime, StableWhenAccepted, WorkbookMemberIsWhatWasWritten).',
+            'kind) plus 30 workbooks given as text (comment lines at every indentation, block scalars whose content starts with #, members indented by 2 / 4); TLC enumerates the single-mutation space, the harness concretises every descriptor (and sampled doubles) to YAML, submits '
+            'it to the real parser entry points, re-instantiates accepted definitions from their stored dict and cuts workbook members (workflows and actions) out '
+            'with the real slicing code; the time budget is CPU time of the validating process; TLC judges each recorded outcome (Total, InTime, StableWhenAccepted, WorkbookMemberIsWhatWasWritten).',
             'TLA+ is generator and class oracle only (it does not parse YAML); which documents are valid is not specified. Exploration '
             'level: the mutation space of 5 base documents x 12 kinds, not all texts.',
             'TLA+-enumerated structure-aware mutation space, outcomes judged by TLC', '6.8'),
     'C02': ('engine', 'model_checking',
             'Programs of the deterministic class (generated DAGs with all-joins, per-task publishers, sub-workflows, with-items; '
-            'catalogue shapes) are each run 6 (thorough 16) times on the real engine - both schedulers, 7 schedule policies, '
+            'catalogue shapes; data-flow shapes in which a scalar / nested / two-level variable is re-published inside one branch of a fork and merged at a join) are each run 6 (thorough 16; fixed shapes: all 28 variants) times on the real engine - both schedulers, 7 schedule policies, '
             'specification-cache eviction on/off between steps; TLC compares the final outcomes (EngineDetTrace: CameToRest, '
             'Deterministic - execution state and evaluated output, per task state / published variables / routed-to set, accepted action '
             'results). Model level: TLC checks confluence of MistralEngine (a single terminal projection over all interleavings) on the '
